@@ -201,6 +201,51 @@ def check_timeseries(ctx, rng, RVData, d, kw, desc, cls, ops):
                       % (dref, exp_ref), c)
 
 
+def check_guess_table(ctx, rng, RVData, kw, desc, ops):
+    """Columns named jd / mjd (UTC by astropy's default), bjd / bmjd (barycentric: TCB), t / time (format guessed from
+    the values); velocity and error columns under their documented names."""
+    import astropy.units as u
+    from astropy.table import Table
+    from astropy.time import Time
+    t_in = kw["t"]
+    mjd_vals = np.asarray(t_in.mjd if isinstance(t_in, Time) else t_in, dtype=float)     # just numbers to put in a column
+    name = str(rng.choice(["mjd", "MJD", "jd", "JD", "bmjd", "BMJD", "bjd", "t", "time", "Time"]))
+    low = name.lower()
+    fmt = "jd" if low in ("jd", "bjd") else "mjd"
+    if low in ("t", "time") and rng.random() < 0.5:
+        fmt = "jd"
+    vals = mjd_vals + (2400000.5 if fmt == "jd" else 0.0)
+    scale = "tcb" if low.startswith("b") else "utc"
+    rvn = str(rng.choice(["rv", "RV", "vhelio", "radial_velocity", "VRAD"]))
+    ern = str(rng.choice(["%serr", "%s_err", "%s_e", "e_%s"])) % rvn
+    tbl = Table()
+    tbl[name] = vals
+    tbl[rvn] = kw["rv"]
+    tbl[ern] = kw["rv_err"]
+    if rng.random() < 0.4:
+        tbl["snr"] = rng.uniform(5, 100, len(vals))        # an unrelated column
+    d2 = RVData.guess_from_table(tbl)
+    ctx.evaluations += 1
+    ops.append("guess-table-" + low)
+    c = dict(desc, op="guess_from_table", time_column=name, time_format=fmt, rv_column=rvn, err_column=ern)
+    exp_t_all = Time(vals, format=fmt, scale=scale).tcb.mjd
+    order = np.argsort(exp_t_all, kind="stable")
+    exp_t = exp_t_all[order]
+    if len(d2) != len(exp_t):
+        ctx.violation("guess-table-length", "guess_from_table holds %d observations, the table has %d" % (len(d2), len(exp_t)), c)
+        return
+    dt = float(np.max(np.abs(np.asarray(d2._t_bmjd) - exp_t)))
+    if dt > 2e-8:       # jd values near 2.45e6 resolve ~4e-10 d
+        ctx.violation("guess-table-times-wrong", "a column named %r (values in %s) was read as epochs %.6g d away from "
+                      "Time(values, format=%r, scale=%r)" % (name, fmt, dt, fmt, scale), c)
+    if len(np.unique(exp_t)) == len(exp_t):
+        rv2 = d2.rv.to_value(kw["rv"].unit)
+        er2 = d2.rv_err.to_value(kw["rv_err"].unit)
+        if not (np.allclose(rv2, np.asarray(kw["rv"].value, float)[order], rtol=1e-6, atol=0)
+                and np.allclose(er2, np.asarray(kw["rv_err"].value, float)[order], rtol=1e-6, atol=0)):
+            ctx.violation("guess-table-pairing-broken", "velocities / uncertainties are not those of the same table rows", c)
+
+
 def run(ctx):
     M.install_rvdata()
     from thejoker.data import RVData
@@ -254,6 +299,12 @@ def run(ctx):
                 check_timeseries(ctx, rng, RVData, d, kw, desc, cls, ops)
             except Exception as e:
                 ctx.exception(e, "to_timeseries / from_timeseries on a valid object", desc)
+        # the third constructor: guess_from_table on a table whose column names say what the times are
+        if finite_all and len(d) > 0 and not d._has_cov and not cls[9] and desc["nonfinite"] == "none" and rng.random() < 0.2:
+            try:
+                check_guess_table(ctx, rng, RVData, kw, desc, ops)
+            except Exception as e:
+                ctx.exception(e, "guess_from_table on a table with standard column names", desc)
         # a multi-step history on one object: ivar read, uncertainties scaled (the package's own tests do `data.rv *= 1.5`),
         # ivar read again - it must be the reciprocal variance of the *current* uncertainties
         if finite_all and len(d) > 0 and rng.random() < 0.5:
